@@ -331,6 +331,8 @@ class ASTComputeOperator(ASTEnumElementBase):
         if (self.enum == static.EnumComputeOperator.MOD
                 and sql_type not in {SQLType.DEFAULT, SQLType.MYSQL, SQLType.SQL_SERVER, SQLType.HIVE}):
             raise NotSupportError(f"{sql_type} 不支持使用 % 运算符")
+        if self.enum == static.EnumComputeOperator.LOGICAL_INVERSION and sql_type == SQLType.HIVE:
+            raise NotSupportError("Hive 中的 ! 表示 NOT，不支持将其作为一元运算符输出")
         return super(ASTComputeOperator, self).source(sql_type)
 
 
